@@ -248,6 +248,12 @@ def _parts(tier):
     out.append(("pickup_signature_change", lambda: G.build_part("P1", 4, ts=((0, 3, 4), (28, 6, 8)), notes=[("u", 0, 4, "G", None, 4, 1, 1), ("a", 4, 12, "C", None, 5, 1, 1), ("b", 16, 12, "E", -1, 5, 1, 1), ("c", 28, 6, "F", 1, 4, 1, 1),
                                                                                                              ("d", 34, 6, "A", None, 4, 1, 1)], measures=[(0, 4), (4, 16), (16, 28), (28, 40)], key=(3, "major"),
                                                                 graces=[("g", 16, "D", None, 5, 1, 1, "b")])))
+    # rests off the beat in a meter whose beat is not a quarter, a rest with a missing voice, notes in voice 0 next to voice 1
+    out.append(("six_eight_rests_voice0", lambda: G.build_part("P1", 4, ts=((0, 6, 8),), notes=[("a", 0, 2, "C", None, 4, 0, 1), ("b", 4, 2, "D", None, 4, 1, 1), ("c", 6, 6, "E", None, 4, 0, 1),
+                                                                                               ("d", 12, 6, "F", None, 4, 1, 1), ("e", 22, 2, "G", None, 4, 0, 1)],
+                                                               rests=[("r0", 2, 2, 1, 1), ("r1", 18, 3, None, None), ("r2", 21, 1, 1, 1)], measures=[(0, 12), (12, 24)], key=(1, "major"))))
+    out.append(("two_two_then_three_eight_rests", lambda: G.build_part("P1", 2, ts=((0, 2, 2), (8, 3, 8)), notes=[("a", 0, 3, "C", None, 4, 1, 1), ("b", 4, 4, "D", None, 4, 1, 1), ("c", 9, 2, "E", None, 4, 1, 1)],
+                                                                       rests=[("r0", 3, 1, 1, 1), ("r1", 8, 1, 1, 1)], measures=[(0, 8), (8, 11)])))
     if tier == "thorough":
         out.append(("plain", lambda: G.build_part("P1", 1, notes=[("a", 0, 4, "C", None, 4, 1, 1), ("b", 4, 4, "D", None, 4, 1, 1)])))
     return out
@@ -297,6 +303,26 @@ def bounded(b):
                 if ok and len(ra) and "ts_beats" in ra.dtype.names:
                     good = all(int(r["ts_beats"]) == O.ts_in_force(part, int(r["onset_div"])).beats for r in ra)
                     b.case("rest_array/optional_columns", good, dict(case, options=sorted(ropts)), "time signature column of the rest array")
+                # the rest array obeys the rules of the note array: quarters and beats by the exact maps, voice and staff as stated
+                bad = None
+                byid = {str(r["id"]): r for r in ra}
+                for rest in part.iter_all(sc.Rest):
+                    r = byid.get(str(rest.id))
+                    if r is None:
+                        continue
+                    on, off = rest.start.t, rest.end.t
+                    want = {"onset_quarter": O.quarter_pos(part, on), "duration_quarter": O.quarter_pos(part, off) - O.quarter_pos(part, on),
+                            "onset_beat": O.beat_pos(part, on), "duration_beat": O.beat_pos(part, off) - O.beat_pos(part, on), "pitch": 0}
+                    if rest.voice is not None:
+                        want["voice"] = rest.voice
+                    if "staff" in ra.dtype.names:
+                        want["staff"] = rest.staff or 0
+                    if "ts_beat_type" in ra.dtype.names:
+                        want["ts_beat_type"] = O.ts_in_force(part, on).beat_type
+                    for k, v in want.items():
+                        if abs(float(r[k]) - float(v)) > 1e-5 * (1 + abs(float(v))):
+                            bad = bad or "rest %s column %s = %r, the score states %s" % (rest.id, k, r[k], v)
+                b.case("rest_array/columns_follow_the_rules_of_the_note_array", bad is None, dict(case, options=sorted(ropts)), bad or "", nontrivial=len(ra) > 0)
     # scores / lists of parts: lcm rescaling and id prefixing
     for divs in ((2, 3), (4, 6, 3), (4, 2), (6, 6)):
         for uid in (True, False):
